@@ -44,4 +44,48 @@ def focusHandleEvent : List Line := [
   ⟨0, .returnS, (.var "nil"), .none⟩]
 
 
+/-- `mouseHandler.handleEvent` -/
+def mouseHandleEvent : List Line := [
+  ⟨0, .assign, (.var "r.mouse"), (.un "&" (.var "v1"))⟩,
+  ⟨0, .define, (.var "v2"), (.arg (.arg (.call (.var "r.update")) (.var "v0")) (.var "r.lastFrame"))⟩,
+  ⟨0, .ifS, (.bin "!=" (.var "v2") (.var "nil")), .none⟩,
+  ⟨1, .returnS, (.var "v2"), .none⟩,
+  ⟨0, .ifS, (.bin "==" (.arg (.call (.var "len")) (.var "r.lastHits")) (.int 0)), .none⟩,
+  ⟨1, .returnS, (.var "nil"), .none⟩,
+  ⟨0, .assign, (.var "v0.consumeEvent"), (.var "false")⟩,
+  ⟨0, .rangeS, (.pair (.var "_") (.var "v3")), (.var "r.lastHits")⟩,
+  ⟨1, .define, (.pair (.var "v4") (.var "v5")), (.arg (.arg (.call (.var "assert")) (.var "v3.w")) (.var "EventCapturer"))⟩,
+  ⟨1, .ifS, (.un "!" (.var "v5")), .none⟩,
+  ⟨2, .continueS, .none, .none⟩,
+  ⟨1, .define, (.pair (.var "v6") (.var "v7")), (.arg (.call (.var "v4.CaptureEvent")) (.var "v1"))⟩,
+  ⟨1, .ifS, (.bin "!=" (.var "v7") (.var "nil")), .none⟩,
+  ⟨2, .returnS, (.var "v7"), .none⟩,
+  ⟨1, .exprS, (.arg (.call (.var "v0.handleCommand")) (.var "v6")), .none⟩,
+  ⟨1, .ifS, (.var "v0.consumeEvent"), .none⟩,
+  ⟨2, .assign, (.var "v0.consumeEvent"), (.var "false")⟩,
+  ⟨2, .returnS, (.var "nil"), .none⟩,
+  ⟨0, .define, (.var "v8"), (.index (.var "r.lastHits") (.bin "-" (.arg (.call (.var "len")) (.var "r.lastHits")) (.int 1)))⟩,
+  ⟨0, .define, (.pair (.var "v9") (.var "v2")), (.arg (.arg (.call (.var "v8.w.HandleEvent")) (.var "v1")) (.var "TargetPhase"))⟩,
+  ⟨0, .ifS, (.bin "!=" (.var "v2") (.var "nil")), .none⟩,
+  ⟨1, .returnS, (.var "v2"), .none⟩,
+  ⟨0, .exprS, (.arg (.call (.var "v0.handleCommand")) (.var "v9")), .none⟩,
+  ⟨0, .ifS, (.var "v0.consumeEvent"), .none⟩,
+  ⟨1, .assign, (.var "v0.consumeEvent"), (.var "false")⟩,
+  ⟨1, .returnS, (.var "nil"), .none⟩,
+  ⟨0, .forInit, .none, .none⟩,
+  ⟨1, .define, (.var "v10"), (.bin "-" (.arg (.call (.var "len")) (.var "r.lastHits")) (.int 2))⟩,
+  ⟨0, .forS, (.bin ">=" (.var "v10") (.int 0)), .none⟩,
+  ⟨1, .define, (.var "v11"), (.index (.var "r.lastHits") (.var "v10"))⟩,
+  ⟨1, .define, (.pair (.var "v12") (.var "v13")), (.arg (.arg (.call (.var "v11.w.HandleEvent")) (.var "v1")) (.var "BubblePhase"))⟩,
+  ⟨1, .ifS, (.bin "!=" (.var "v13") (.var "nil")), .none⟩,
+  ⟨2, .returnS, (.var "v13"), .none⟩,
+  ⟨1, .exprS, (.arg (.call (.var "v0.handleCommand")) (.var "v12")), .none⟩,
+  ⟨1, .ifS, (.var "v0.consumeEvent"), .none⟩,
+  ⟨2, .assign, (.var "v0.consumeEvent"), (.var "false")⟩,
+  ⟨2, .returnS, (.var "nil"), .none⟩,
+  ⟨1, .forPost, .none, .none⟩,
+  ⟨2, .subAssign, (.var "v10"), (.int 1)⟩,
+  ⟨0, .returnS, (.var "nil"), .none⟩]
+
+
 end VaxisModel.Lemmas.VxfwBodyExpected
